@@ -26,28 +26,37 @@ func init() {
 	vk.Register(&vk.Check{
 		ID:        "C18",
 		Level:     "exploration",
-		Technique: "Go race detector (-race build of the harness + shovel) over free-running production-wired tasks with real goroutine concurrency, head poller at 2 ms, wire delays, head growth and reorgs in flight; reports de-duplicated by innermost shovel frame pair",
-		Rule: "family A: one task with concurrency 2..8 and batch >= concurrency; family C: 2–4 event integrations each attached to two sources (own client each), so two tasks built from one integration configuration decode and insert at the same time; family B: 2–5 tasks on one source client with overlapping ranges and different data plans (b+l, h+l, r, b+t, l, b+r) so cached block segments are shared while logs/receipts/traces are attached; " +
+		Technique: "Go race detector (-race build of the harness + shovel) over free-running production-wired tasks with real goroutine concurrency, head poller at 2 ms, wire delays, head growth and reorgs in flight; reports de-duplicated by innermost shovel frame pair; plus a crash monitor over fresh child processes (plain build, the JSON dependency's racy decoder publication stretched by a build overlay) for first-use initialisation the race detector is blinded to",
+		Rule: "first use: fresh child processes (plain build; the JSON library's unsynchronised publication of a compiled decoder stretched by a build overlay, because that library hides the access from the race detector by switching to a mutex under -race) whose 2–16 goroutines perform the process's first block/head/hash requests at the same moment: the child must not crash; family A: one task with concurrency 2..8 and batch >= concurrency; family C: 2–4 event integrations each attached to two sources (own client each), so two tasks built from one integration configuration decode and insert at the same time; family B: 2–5 tasks on one source client with overlapping ranges and different data plans (b+l, h+l, r, b+t, l, b+r) so cached block segments are shared while logs/receipts/traces are attached; " +
 			"each case runs real runner goroutines until every task has reached a head that grows and reorganises meanwhile; random 0–3 ms delays at both wire boundaries, head poller at 2 ms with injected poller failures. signature = (family, concurrency class, plans, reorgs seen, poller resets); trivial = fewer than 20 Converge executions.",
 		Assumptions: []string{
 			"the race detector only sees interleavings that occurred: a clean run is not race freedom",
 			"only well-formed chain data is served (so checkptr inside the JSON decoder is not provoked)",
 			"reports with a stack that holds no shovel frame are harness or third-party issues and are reported as inconclusive, not as violations",
 		},
-		NCases: func(tier string) int {
-			if tier == "thorough" {
-				return 1024
-			}
-			return 160
-		},
+		NCases: func(tier string) int { return c18Pipeline(tier) + c18FirstUseCases(tier) },
 		Run:              c18Run,
 		Race:             true,
 		CrashIsViolation: true,
 		CaseTimeoutS:     240,
 		MinObs: func(tier string) map[string]int64 {
-			return map[string]int64{"converge_calls": 2000, "cases_reached_head": 80, "max_inflight_requests": 2, "poller_requests": 200, "shared_source_cases": 20, "one_integration_two_sources_cases": 20, "reorgs_applied": 30, "poller_failures_injected": 10}
+			return map[string]int64{"converge_calls": 2000, "cases_reached_head": 80, "max_inflight_requests": 2, "poller_requests": 200, "shared_source_cases": 20, "one_integration_two_sources_cases": 20, "first_use_processes": 150, "reorgs_applied": 30, "poller_failures_injected": 10}
 		},
 	})
+}
+
+func c18Pipeline(tier string) int {
+	if tier == "thorough" {
+		return 1024
+	}
+	return 160
+}
+
+func c18FirstUseCases(tier string) int {
+	if tier == "thorough" {
+		return 64
+	}
+	return 16
 }
 
 var c18Plans = [][]string{
@@ -60,6 +69,10 @@ var c18Plans = [][]string{
 }
 
 func c18Run(c *vk.Case) {
+	if c.Index >= c18Pipeline(c.Tier) {
+		c18FirstUse(c)
+		return
+	}
 	r := c.R
 	familyA := c.Index%2 == 0
 	addrs := [][]byte{r.Bytes(20), r.Bytes(20)}
